@@ -13,7 +13,7 @@ import z3
 from torch import nn
 
 from ..par import run_tasks
-from ..report import CONCRETE, INCONCLUSIVE, Report, describe_function
+from ..report import CONCRETE, INCONCLUSIVE, Report, describe_function, lazy
 from ..sym.runner import discharge
 from ..sym.scalar import Ctx, SBool, SInt, SReal, _sreal
 from ..sym.tensor import Session
@@ -412,7 +412,7 @@ def run(rep: Report, only: str = "") -> None:
     if only:
         tasks = [t for t in tasks if only in repr(t[1])]
     rep.extend(run_tasks(tasks))
-    rep.functions = [describe_function(f) for f in (up._parameter_deepcopy, up._parameter_reduce_ex, up._rebuild_parameter_with_state, up.Parameter, up.has_parameter_data)]
+    rep.functions = [describe_function(f) for f in (lazy(lambda: up._parameter_deepcopy), lazy(lambda: up._parameter_reduce_ex), lazy(lambda: up._rebuild_parameter_with_state), lazy(lambda: up.Parameter), lazy(lambda: up.has_parameter_data))]
     rep.bounds = {"step": "one operation of the property's alphabet from an arbitrary valid state: tag = symbolic selector over the four tags (path forking in has_parameter_data / "
                           "lr_scale_func), depth None or symbolic in [1,1024], requires_grad both; invariant I = nn.Parameter + hooks bound to the object itself",
                   "histories": f"all sequences of length <= {4 if thorough else 3} over the 11 operations on real objects (enumeration, labelled; length >= 3 with 2 tag/depth pairs)",
